@@ -135,6 +135,8 @@ func vObserve(label string, v uint64) { vfmt.Printf("VERIF-OBS %%s=%%d\n", label
 
 func vInsertionSort(n int, less func(i, j int) bool, swap func(i, j int)) {}
 
+func vNative() bool { return true }
+
 var vStart = vtime.Now()
 
 // real seconds since the harness started (timers run in real time natively)
